@@ -334,6 +334,19 @@ func c03Recipes() []c03Recipe {
 		set(e, pf)
 		e.b = next
 	})
+	add("phi-multi-edge", func(e *c03Env) {
+		// a predecessor with several edges into one block (two switch cases and the
+		// default, both arms of a conditional branch): LLVM wants one phi entry per
+		// edge, so the same predecessor appears several times in the list
+		j := e.f.NewBlock("join")
+		k := e.f.NewBlock("")
+		e.b.NewSwitch(e.p["i"], j, ir.NewCase(ci(types.I32, 3), j), ir.NewCase(ci(types.I32, 9), j), ir.NewCase(ci(types.I32, 4), k))
+		k.NewCondBr(e.p["b"], j, j)
+		ph := j.NewPhi(ir.NewIncoming(e.p["i"], e.b), ir.NewIncoming(e.p["i"], e.b), ir.NewIncoming(e.p["i"], e.b),
+			ir.NewIncoming(e.p["j"], k), ir.NewIncoming(e.p["j"], k))
+		set(e, ph)
+		e.b = j
+	})
 	add("terminators", func(e *c03Env) {
 		a := e.f.NewBlock("bb.a")
 		b := e.f.NewBlock("")
